@@ -17,6 +17,10 @@ for d in sorted(glob.glob('/verif/seeded/*/')):
     if ap.returncode != 0:
         print(name, 'PATCH DOES NOT APPLY to current main:', ap.stderr[:200]); continue
     env = dict(os.environ); env['VERIF_REPO'] = WT; env['VERIF_BUILD'] = '/verif/.build/mut'
+    if meta.get('units'):
+        env['VERIF_UNITS'] = ','.join(meta['units'])
+    if meta.get('check_results') and not os.environ.get('REDO'):
+        print(name, 'already done'); continue
     props = [prop] + meta.get('also_check', [])
     res = {}
     for p in props:
